@@ -73,6 +73,11 @@ def gen_constraint(rng, n, poly, eq):
         rows, c = rows[:2], [F(rng.randint(1, 4)), F(-rng.randint(1, 4))]
         if rng.random() < 0.5:
             c = c[::-1]
+    elif not eq and shape < 0.6 and m >= 2 and rng.random() < 0.08:
+        # one of the negative terms has a genuine coefficient of size 1e-9 (2^-30): it is part of the constraint (and decides it
+        # far out), not round-off
+        negs = [i for i, v in enumerate(c) if v < 0]
+        c[rng.choice(negs)] = F(-1, 2 ** 30)
     return rm.sig_leaf(rows, c, poly=poly)
 
 
@@ -372,7 +377,16 @@ def audit_inferred(ctx, rng, c, gts, eqs, X, m, pinned=None):
     n = c['n']
     eqcons = [([float(F(x)) for x in k['a']], k['rhs']) for k in m.get('cons', []) if k['kind'] == 'eq']
     pts = sample_points(rng, n, 14, eqcons) + sample_points(rng, n, 4, [])
+    far = set()
+    if '/1073741824' in common.canon_json([c['gts'], c['eqs']]):
+        # a coefficient of size 2^-30 somewhere: points far out, where its term is of size one and more
+        for _ in range(8):
+            y = [rng.randint(-4, 4) / 4.0 for _ in range(n)]
+            y[rng.randrange(n)] = float(rng.choice([-22, -11, 11, 22]))
+            far.add(len(pts))
+            pts.append(y)
     if pinned is not None:
+        far = {i + 1 for i in far}
         # a stored point x of a violation: its log-magnitudes first
         with np.errstate(all='ignore'):
             pts = [[math.log(abs(v)) if c['poly'] else float(v) for v in pinned]] + pts
@@ -389,11 +403,30 @@ def audit_inferred(ctx, rng, c, gts, eqs, X, m, pinned=None):
         if kept is None:
             continue
         ctx.count('audit:points')
+        # exactness: the constraints the MODEL keeps (the convexifiable ones, as exact rationals derived from the input) against the
+        # ones the implementation kept (X.gts / X.eqs)
+        if not m.get('none'):
+            class _G:
+                pass
+            mg = []
+            for js, eq_ in [(g_, False) for g_ in m.get('gts', [])] + [(g_, True) for g_ in m.get('eqs', [])]:
+                o = _G()
+                o.alpha = np.array([[float(F(v)) for v in r] for r in js['alpha']], dtype=float).reshape(len(js['c']), n)
+                o.c = np.array([float(F(v)) for v in js['c']], dtype=float)
+                mg.append(tri(o, x, c['poly'], eq_))
+            keptm = all3(mg)
+            if keptm is False and kept is True:
+                return ('the point %s violates a convexifiable constraint of the input (with margin) but satisfies every constraint kept in '
+                        'X.gts / X.eqs: X is larger than the set the convexifiable constraints cut out' % x.tolist(), x.tolist())
         if orig is True and kept is False:
             return ('the point %s satisfies all of gts and eqs but violates a constraint kept in X.gts / X.eqs' % x.tolist(), x.tolist())
         inX = conic_member(X, n, y)
         if inX is None:
             ctx.incon('audit: conic membership undecided')
+            continue
+        if kept != inX and pi in far and kept is True:
+            # far out the solver cannot be trusted to FIND auxiliary values (numbers of size e^60); a point it does certify is certified
+            ctx.count('audit:far-point-undecided')
             continue
         if kept != inX:
             return ('the point %s %s every kept constraint (with margin) but its image %s %s the conic data (A, b, K)'
